@@ -1634,25 +1634,29 @@ class TCPConnector(BaseConnector):
             proxy_req.url = req.url
             key = req.connection_key._replace(proxy=None, proxy_headers_hash=None)
             conn = _ConnectTunnelConnection(self, key, proto, self._loop)
+            # read_until_eof=True will ensure the connection isn't closed
+            # once the response is received and processed allowing
+            # START_TLS to work on the connection below.
+            proto.set_response_params(
+                read_until_eof=True,
+                read_timeout=timeout.sock_read,
+                timeout_ceil_threshold=self._timeout_ceil_threshold,
+            )
             proxy_resp = await proxy_req._send(conn)
             try:
-                protocol = conn._protocol
-                assert protocol is not None
-
-                # read_until_eof=True will ensure the connection isn't closed
-                # once the response is received and processed allowing
-                # START_TLS to work on the connection below.
-                protocol.set_response_params(
-                    read_until_eof=True,
-                    timeout_ceil_threshold=self._timeout_ceil_threshold,
-                )
-                resp = await proxy_resp.start(conn)
+                # Setting up the tunnel is a part of connecting to the peer
+                async with ceil_timeout(
+                    timeout.sock_connect, ceil_threshold=timeout.ceil_threshold
+                ):
+                    resp = await proxy_resp.start(conn)
             except BaseException:
                 proxy_resp.close()
                 conn.close()
                 raise
             else:
                 conn._protocol = None
+                # The transport is about to be handed over to the TLS protocol
+                proto._drop_timeout()
                 try:
                     if resp.status != 200:
                         message = resp.reason
